@@ -168,7 +168,7 @@ def opsGen : List String → Option (String × String)
     | none => some ("not-in-class", "~")
     | some db =>
       let api := apiOf db
-      some (s!"ok deterministic,gofmt,vet api={bytesHex (api.toList.map fun c => UInt8.ofNat c.toNat)}", "-")
+      some (s!"ok deterministic,gofmt,cantool,vet api={bytesHex (api.toList.map fun c => UInt8.ofNat c.toNat)}", "-")
   | ["gdesc", h] => do
     match compileHex h with
     | none => some ("not-in-class", "~")
